@@ -1037,10 +1037,7 @@ bool Process::setEnvironmentVariable(const String& name, const String& value)
 bool Process::Arguments::nextChar()
 {
   if(*arg)
-  {
-    ++arg;
-    return true;
-  }
+    return true; // arg already points at the next character of the current argument
   if(argv < argvEnd)
   {
     arg = *(argv++);
